@@ -100,6 +100,63 @@ pub fn median(a: i32, b: i32, c: i32) -> i32 {
 pub fn wrap(v: i32) -> i32 {
     (v + 32).rem_euclid(64) - 32
 }
+/// Half-sample limit R of the size-dependent vector range [-R, R) of Annex D (Tables D.1 and
+/// D.2): 32 samples up to CIF, doubling at 4CIF and 16CIF sizes, 256 samples for wider pictures.
+pub fn umv_limit(dim: usize, is_x: bool) -> i32 {
+    if is_x {
+        match dim {
+            0..=352 => 64,
+            353..=704 => 128,
+            705..=1408 => 256,
+            _ => 512,
+        }
+    } else {
+        match dim {
+            0..=288 => 64,
+            289..=576 => 128,
+            _ => 256,
+        }
+    }
+}
+
+/// One vector component from predictor `p` and coded differential `d`. `Err` = the stream is not
+/// a legal one for this mode (the model has no expectation then).
+pub fn recon_mv(mode: MvMode, p: i32, d: i32, dim: usize, is_x: bool) -> Result<i32, String> {
+    match mode {
+        MvMode::Wrap => Ok(wrap(p + d)),
+        MvMode::UmvBaseline => {
+            // Annex D (1996): vectors lie in [-31.5, 31.5]; a predictor in [-15.5, 16] takes the
+            // differential as it is, otherwise the one of the two values of the Table 14 pair
+            // that lands on the predictor's side of zero
+            let alt = match d.cmp(&0) {
+                std::cmp::Ordering::Greater => d - 64,
+                std::cmp::Ordering::Less => d + 64,
+                _ => 0,
+            };
+            let legal = |v: i32| if p > 32 { (0..=63).contains(&v) } else if p < -31 { (-63..=0).contains(&v) } else { (-63..=63).contains(&v) };
+            let mut cands = vec![p + d];
+            if !(-31..=32).contains(&p) && alt != d {
+                cands.push(p + alt);
+            }
+            cands.retain(|v| legal(*v));
+            if cands.len() == 1 {
+                Ok(cands[0])
+            } else {
+                Err(format!("{} legal vectors for predictor {p} and differential {d}", cands.len()))
+            }
+        }
+        MvMode::UmvPlus { limited } => {
+            let v = p + d;
+            let r = if limited { umv_limit(dim, is_x) } else { 4096 };
+            if (-r..r).contains(&v) {
+                Ok(v)
+            } else {
+                Err(format!("vector {v} outside the range for this picture size"))
+            }
+        }
+    }
+}
+
 /// chroma component from the sum of four luma components (sixteenth-position table)
 pub fn chroma_comp(sum: i32) -> i32 {
     let a = sum.abs();
@@ -201,6 +258,7 @@ pub fn decode(pic: &Pic, reference: Option<&Planes>) -> Result<Decoded, String> 
         return Err("unsupported picture type".into());
     }
     let is_i = ptype == PicType::I;
+    let mv_mode = pic.hdr.mv_mode();
     let (mbw, mbh) = mb_grid(w16, h16);
     let mut out = Planes::new(w, h);
     let mk = |n: usize| Tol { ideal: vec![0.0; n], eps: vec![0.0; n] };
@@ -254,7 +312,7 @@ pub fn decode(pic: &Pic, reference: Option<&Planes>) -> Result<Decoded, String> 
                     let n = if kind.is_4v() { 4 } else { 1 };
                     for k in 0..n {
                         let (px, py) = predict(&mvs, &cur, i, mbw, k);
-                        cur[k] = (wrap(px + mvd[k].0 as i32), wrap(py + mvd[k].1 as i32));
+                        cur[k] = (recon_mv(mv_mode, px, mvd[k].0 as i32, w, true)?, recon_mv(mv_mode, py, mvd[k].1 as i32, h, false)?);
                     }
                     if n == 1 {
                         cur = [cur[0]; 4];
